@@ -179,7 +179,7 @@ check("C11", "an SSTable reads back exactly what was written", [
 ], [SIMFS, CLOCK, HASH, BLOOM, LOG, TIERA], ["keys > 64 KiB (uint16 length field)", ">2 blocks", "multi-byte damage"])
 
 check("C12", "compaction preserves content; deleted keys stay deleted", [
-    ob("VerifC12_CompactPreservesView", "pkg/compaction", "2-3 real SSTables with symbolic levels and tombstone placement, one compaction cycle, merged view before = after", "2-3 files, 2 keys, levels 0-1, file numbering with or against creation order, values symbolic 1-byte or all empty (budget-capped in quick: see the NOTE line)", q={"budget_s": 400}, t={"budget_s": 1500}),
+    ob("VerifC12_CompactPreservesView", "pkg/compaction", "2-3 real SSTables with symbolic levels and tombstone placement, one compaction cycle, merged view before = after", "2-3 files, 2 keys, levels 0-1, file numbering with or against creation order, values symbolic 1-byte, or all empty with 2 files (12 960 paths)", "all-empty values also with 3 files", q={"budget_s": 700}, t={"budget_s": 1500}),
     ob("VerifC12_CompactionInWorkload", "pkg/engine", "put+flush / delete+flush / triggered compaction / retire-flushed-logs+reopen steps on an engine with a level-0 trigger of 2: after every step and at the end each key reads as its latest write says, also from the compacted files after a reopen with the old logs gone",
        "2..4 steps, writes on 1 of 2 keys, probe over both; database fresh or aged (both keys already in level 2)", "2..5 steps, writes on both keys", q={"budget_s": 500}, t={"budget_s": 1200}),
     ob("VerifC12_RangeCompaction", "pkg/engine", "an older generation of a symbolic subset of 3 keys sits 1 (thorough 1-2) levels down; a newer generation (1-2 puts/deletes) is flushed into one level-0 table; CompactRange over a symbolic key range [lo,hi] (thorough: 1-2 such rounds): every key reads as its latest write says in the running engine and after the logs are retired and the database is reopened on the tables alone",
